@@ -26,7 +26,7 @@ RULE = (
 COMPONENTS = c01.COMPONENTS
 ASSUMPTIONS = c01.ASSUMPTIONS + ["inside edits are body-text changes and value changes of variables of the documented basic kinds read by name"]
 PROBES = ["outside_edit_compared", "inside_edit_compared", "depth>=4", "accept_prefix_deep", "decoys>=10", "lookalike_module",
-          "refusal_checked", "few_accepted_deep_module", "late_accept", "eval_before_accept"]
+          "refusal_checked", "few_accepted_deep_module", "late_accept", "eval_before_accept", "lookalike_accepted_after"]
 
 
 def _feat(cfg, avoid=()):
@@ -54,6 +54,11 @@ def gen_case(streams, tier, avoid):
     case = hist.gen_history(streams, tier, prof)
     cfg = streams.get("config")
     prog = case["prog"]
+    if cfg.random() < 0.35:
+        # look-alike ACCEPTED packages: the program lives in `pk_ext...`, and `pk` (a plain string prefix of it, not a
+        # dotted prefix) and `pk_ext_more` are accepted after it
+        prog["pkg"][0] = "pk_ext"
+        prog["accept_after"] = ["pk", "pk_ext_more"][: cfg.randint(1, 2)]
     pkg, acc = prog["pkg"], prog["accept"]
     mods = ["extlib", f"{pkg[0]}x.lib", f"{pkg[0]}_b.lib"]
     if acc > 1:
@@ -115,6 +120,8 @@ def run_case(case):
             probe("few_accepted_deep_module")
         if any(m != "extlib" for m in prog.get("extmods", [])):
             probe("lookalike_module")
+        if prog.get("accept_after"):
+            probe("lookalike_accepted_after")
         # classify the edits between consecutive full evaluations of the same entry
         last = {}           # (store, entry) -> (obs, op index)
         edits_since = {}    # (store, entry) -> list of edits
